@@ -314,6 +314,14 @@ CORPUS = [
     "MetaData(ds, {'a': -True})", "MetaData(ds, {'a': {'b': {}}})", "f(MetaData)", "MetaData", "x.MetaData",
     "MetaData(ds, {1, 2})", "MetaData(ds, set())", "MetaData(ds, 1 + 2j)", "MetaData(ds, {1.0: 'a', 1: 'b'})",
     "MetaData(lambda x: MetaData(x, {'in': 1}), {'out': 2})(MetaData(y, {}))",
+    "lambda x=MetaData(a, {'d': 1}): MetaData(x, {'b': 2})",
+    "[MetaData(j, {'e': 1}) for j in MetaData(ds, {'i': 2}) if MetaData(j.ok, {'c': 3})]",
+    "{MetaData(k, {'k': 1}): MetaData(v, {'v': 2}), MetaData(k2, {'k': 3}): MetaData(v2, {'v': 4})}",
+    "MetaData(f, {'0': 0})(MetaData(a, {'1': 1}), w=MetaData(b, {'2': 2}))(MetaData(c, {'3': 3}))",
+    "MetaData(a, {'1': 1}) if MetaData(t, {'0': 0}) else MetaData(b, {'2': 2})",
+    "MetaData(a, {'1': 1}) < MetaData(b, {'2': 2}) <= MetaData(c, {'3': 3})",
+    "MetaData(a, {'1': 1})[MetaData(i, {'2': 2})] + MetaData(b, {'3': 3}) and MetaData(c, {'4': 4})",
+    "(MetaData(j, {'e': 1}) for j in MetaData(ds, {'i': 2}))",
     "MetaData(ds, {'metadata_type': 'add_job_script', 'name': 'x', 'script': ['a', 'b'], 'depends_on': []})",
 ]
 
@@ -364,7 +372,7 @@ def query_cases(ctx):
                 for j in range(len(positions(t1))):
                     for k2 in KINDS2:
                         two.append(place(t1, j, k2, placer))
-    cap = ctx.budget(6000, 200000)
+    cap = ctx.budget(5000, 200000)
     if len(two) > cap:
         ctx.notes.append("placements: 1 wrapper exhaustive (%d), 2 wrappers %d -> seeded sample of %d" % (len(one), len(two), cap))
         two = ctx.rng.sample(two, cap)
